@@ -13,23 +13,26 @@ Theorem C01_send_model_holds : forall c, holds_send c (run_send c) = [].
 Proof. exact send_model_holds. Qed.
 Print Assumptions C01_send_model_holds.
 
-(* if every window of 1 + max_retries consecutive sends contains one that does not fail (and the
-   OACK, when there is one, goes out), every block is delivered, in order *)
+(* if every window of 1 + max_retries consecutive sends contains one that does not fail, the OACK
+   (read as block 0, when there is one) and every block go out, in order *)
 Theorem C01_send_failures_within_budget_deliver : forall c,
-  no_long_run (s_faults c) (s_retries c) -> (s_oack c = true -> faulty (s_faults c) 0 = false) ->
-  snd (run_send c) = true /\ delivered (fst (run_send c)) = seq 1 (s_blocks c).
+  no_long_run (s_faults c) (s_retries c) ->
+  snd (run_send c) = true /\
+  sent_ok (fst (run_send c)) = if s_oack c then seq 0 (S (s_blocks c)) else seq 1 (s_blocks c).
 Proof. exact send_failures_within_budget_deliver. Qed.
 Print Assumptions C01_send_failures_within_budget_deliver.
 
-(* what the code does when the OACK's sendto fails: nothing more is sent (it sends outside its try);
-   recorded as behaviour, not asked for by the property *)
-Theorem C01_oack_send_failure_ends_transfer : forall n rt fs,
-  faulty fs 0 = true ->
-  run_send {| s_oack := true; s_blocks := n; s_retries := rt; s_faults := fs |} = ([AOack false], false).
-Proof. intros n rt fs H. unfold run_send. cbn [s_oack s_faults]. now rewrite H. Qed.
-Print Assumptions C01_oack_send_failure_ends_transfer.
+(* the behaviour before the repair of D23: _send_options_ack sent outside its try, so ONE failed
+   OACK send ended the transfer although the budget allowed more - the checker rejects that run *)
+Theorem C01_refuted_D23_oack_send_failure :
+  let c := {| s_oack := true; s_blocks := 1; s_retries := 2; s_faults := [0] |} in
+  run_send_v true c = ([AOack false], false) /\
+  holds_send c (run_send_v true c) <> [] /\
+  run_send c = ([AOack false; AOack true; AData 1 true], true).
+Proof. vm_compute. repeat split; discriminate. Qed.
+Print Assumptions C01_refuted_D23_oack_send_failure.
 
-(* non-vacuity: 3 blocks, budget 2, sends 1, 2 and 4 fail: block 1 goes out at the third try,
+(* non-vacuity: 3 blocks, budget 2, sends 0, 1 and 3 fail: block 1 goes out at the third try,
    block 2 at the second, everything is delivered *)
 Example C01_send_example :
   run_send {| s_oack := false; s_blocks := 3; s_retries := 2; s_faults := [0; 1; 3] |} =
